@@ -396,6 +396,22 @@ func (r *runner) history(cfg histCfg) {
 				} else if !ok {
 					fail("clamp/oak/outside-0.4-percent", fmt.Sprintf("difficulty %v -> %v at height %d (ASIC height %d)", D, D2, h, n.HardforkASIC.Height))
 				}
+				// before v2 the target is the primary quantity; at trivial difficulty (1..3) the integer difficulty
+				// is too coarse to see the clamp, the 256-bit target is not: T*1000/1004 - 1 <= T2 <= T*1004/1000 + 1,
+				// where the upper bound may only be cut by the largest target there is
+				if h != n.HardforkASIC.Height && h < n.HardforkV2.AllowHeight {
+					Tp := idBig(parent.ChildTarget)
+					if Tp.Sign() != 0 && T2.Sign() != 0 {
+						up := new(big.Int).Mul(Tp, big.NewInt(1004))
+						up.Quo(up, big.NewInt(1000)).Add(up, bigOne)
+						lo := new(big.Int).Mul(Tp, big.NewInt(1000))
+						lo.Quo(lo, big.NewInt(1004)).Sub(lo, bigOne)
+						b.Count("steps_oak_target_clamp_checked", 1)
+						if T2.Cmp(up) > 0 || T2.Cmp(lo) < 0 {
+							fail("clamp/oak/target-outside-0.4-percent", fmt.Sprintf("target %x -> %x at height %d", Tp, T2, h))
+						}
+					}
+				}
 			case eraV2:
 				ok, side = absClamp(D, D2, new(big.Int).Quo(D, big250))
 				b.Count("steps_v2", 1)
